@@ -355,5 +355,81 @@ class GraphEdges(Target):
         return []
 
 
-TARGETS = [ApplyReplicate(), CompileReplica(), CompileAggregate(), GraphEdges()]
+class ConcreteReplicate(Target):
+    """FlowIRConcrete.replicate, the caller that the loader uses: replica counts given through a variable must be resolved
+    with the variables THE INSTANCE gives its components -- the flattened scopes of instance() (C04: platform-global outranks
+    default-stage), not a re-layering of the package's scopes.  The components handed to apply_replicate are the instance's,
+    and what apply_replicate returns becomes the components of the result."""
+    prop = 'C03'
+    name = 'FlowIRConcrete.replicate'
+    file = F
+    qualname = 'FlowIRConcrete.replicate'
+    inline_class = {'this': (F, 'FlowIRConcrete')}
+    compare_return = False
+    trusted = ["FlowIRConcrete.instance (C04) returns the flattened description", "FlowIR.apply_replicate (under contract above) "
+               "looks a variable up in the component, then the stage, then the global scope it is given",
+               "FlowIR.override_object: right-biased merge (only reached by re-layering variants)"]
+    assumptions = ["one replica-count variable N defined in the default platform's stage scope (2) and in the selected platform's "
+                   "global scope (3), or in one of them only; platform default / hpc"]
+
+    def setup(self, c):
+        g = c.ghost
+        g['received'] = None
+        plat = c.one_of('platform', ['hpc', 'default'])
+        in_stage = c.one_of('N_in_default_stage_scope', [True, False])
+        in_plat_global = c.one_of('N_in_platform_global_scope', [True, False])
+        pkg_vars = {'default': {'global': {}, 'stages': {0: ({'N': '2'} if in_stage else {})}},
+                    'hpc': {'global': ({'N': '3'} if in_plat_global else {}), 'stages': {0: {}}}}
+        # what instance() (C04) produces for the selected platform: platform-global outranks default-stage
+        if plat == 'hpc' and in_plat_global:
+            flat = {'global': {'N': '3'}, 'stages': {0: {}}}
+        else:
+            flat = {'global': {}, 'stages': {0: ({'N': '2'} if in_stage else {})}}
+        comps = [{'stage': 0, 'name': 'sim', 'workflowAttributes': {'replicate': '%(N)s'}}]
+        instance_doc = {'variables': {'default': flat}, 'components': comps, 'platforms': ['default']}
+        this = Obj('concrete', _platform=plat, platforms=['default', 'hpc'], _flowir={'variables': pkg_vars, 'components': comps},
+                   _cache=Obj('cache', clear=Extern('cache.clear', lambda c: None)),
+                   instance=Extern('instance', lambda c, platform=None, **k: instance_doc),
+                   get_application_dependencies=Extern('get_application_dependencies', lambda c, *a: []),
+                   get_stage_number=Extern('get_stage_number', lambda c: 1))
+        return State(args=[this], kwargs={'platform': None}, this=this, flat=flat, comps=comps, instance_doc=instance_doc)
+
+    def externs(self, c, st):
+        g = c.ghost
+
+        def apply_replicate(c, components, variables, *a, **k):
+            g['received'] = (components, variables)
+            return ['REPLICATED']
+
+        def override(c, a, b):
+            r = dict(unflex(a) or {})
+            r.update(unflex(b) or {})
+            return r
+        return {'FlowIR.apply_replicate': Extern('FlowIR.apply_replicate', apply_replicate),
+                'FlowIR.override_object': Extern('FlowIR.override_object', override)}
+
+    def ensures(self, c, st, out):
+        if out.kind == 'raise':
+            return [('no-exception', False)]
+        g = c.ghost
+        if g['received'] is None:
+            return [('replication-is-applied', False)]
+        components, variables = g['received']
+        variables = unflex(variables) or {}
+
+        def visible(scopes):
+            stage = unflex((unflex(scopes.get('stages', {})) or {}).get(0, {})) or {}
+            glob = unflex(scopes.get('global', {})) or {}
+            return stage.get('N', glob.get('N'))
+        return [('replication-is-applied', True),
+                ('replica-counts-are-resolved-with-the-variables-the-instance-gives-its-components',
+                 visible(variables) == visible(st.flat)),
+                ('the-instance-components-are-replicated', components is st.comps or components == st.comps),
+                ('the-replicated-components-become-the-result', unflex(out.value).get('components') == ['REPLICATED'])]
+
+    def cross_compare(self, *a):
+        return []
+
+
+TARGETS = [ApplyReplicate(), CompileReplica(), CompileAggregate(), GraphEdges(), ConcreteReplicate()]
 LEMMAS = []
